@@ -281,6 +281,21 @@ pub fn run() -> i32 {
                 }
             }
         }
+        for shape in 0..=6u8 {
+            for cfg in 0..7u8 {
+                if (shape == 0 && cfg > 3) || (shape != 0 && shape != 4 && cfg > 0) {
+                    continue;
+                }
+                for bad in [255u8, 0, 1, 2] {
+                    crate::sym::load(vec![vec![shape], vec![cfg], vec![bad]]);
+                    n += 1;
+                    if std::panic::catch_unwind(|| crate::node::c17_compound()).is_err() {
+                        c11_bad += 1;
+                        eprintln!("SELFTEST-FAIL: c17_compound: shape={} cfg={} failing={}", shape, cfg, bad);
+                    }
+                }
+            }
+        }
         for (shape, top) in [(0u8, 3u8), (1, 12), (2, 6)] {
             for idx in 0..=top {
                 for bad in [255u8, 0, 1, 2] {
